@@ -31,4 +31,48 @@ PROPS = {
         cfgs_quick=["std-debug", "std-release"],
         cfgs_thorough=ALL4,
     ),
+    "C19": dict(
+        theorems=[
+            "u128x1_new", "u128x1_clone", "u128x1_into_inner", "u128x1_rotate_right_total",
+            "u128x1_rotate_right", "u128x1_load", "u128x1_load_debug_panic", "u128x1_load_release",
+            "u128x1_load_release_panic", "u128x1_xor_store", "u128x1_xor_store_debug_panic",
+            "u128x1_xor_store_release", "u128x1_xor_store_release_panic", "u128x1_swap1", "u128x1_swap2",
+            "u128x1_swap4", "u128x1_swap8", "u128x1_swap16", "u128x1_swap32", "u128x1_swap64",
+            "u128x1_andnot", "u128x1_extract", "u128x1_extract_debug_panic", "u128x1_extract_release",
+            "u128x1_add_assign", "u128x1_bitxor_assign", "u128x1_bitxor", "u128x1_bitand", "u128x1_not",
+            "u128x2_new", "u128x2_clone", "u128x2_rotate_right_total", "u128x2_rotate_right", "u128x2_load",
+            "u128x2_load_debug_panic", "u128x2_load_release", "u128x2_load_release_panic",
+            "u128x2_xor_store", "u128x2_xor_store_debug_panic", "u128x2_xor_store_release",
+            "u128x2_xor_store_release_panic", "u128x2_extract", "u128x2_extract_panic", "u128x2_andnot",
+            "u128x2_add_assign", "u128x2_bitxor_assign", "u128x2_bitand", "u128x2_bitor", "u128x2_not",
+            "u32x4_new", "u32x4_clone", "u32x4_splat", "u32x4_rotr_lane", "u32x4_rotate_right_total",
+            "u32x4_rotate_right", "u32x4_from_slice_unaligned", "u32x4_from_slice_unaligned_debug_panic",
+            "u32x4_from_slice_unaligned_release", "u32x4_from_slice_unaligned_release_panic",
+            "u32x4_write_to_slice_unaligned", "u32x4_write_to_slice_unaligned_debug_panic",
+            "u32x4_write_to_slice_unaligned_release", "u32x4_write_to_slice_unaligned_release_panic",
+            "u32x4_extract", "u32x4_extract_panic", "u32x4_replace", "u32x4_replace_panic",
+            "u32x4_add_assign", "u32x4_bitxor_assign", "u32x4_add", "u32x4_bitxor", "u32x4_bitor",
+            "u32x4_bitand", "u32x4_rotate_words_right", "u32x4_rotate_words_right_debug_panic",
+            "u32x4_rotate_words_right_release", "u32x4_splat_rotate_right",
+            "u32x4_splat_rotate_right_debug_panic", "u32x4_splat_rotate_right_release", "u64x4_new",
+            "u64x4_clone", "u64x4_splat", "u64x4_rotr_lane", "u64x4_rotate_right_total",
+            "u64x4_rotate_right", "u64x4_from_slice_unaligned", "u64x4_from_slice_unaligned_debug_panic",
+            "u64x4_from_slice_unaligned_release", "u64x4_from_slice_unaligned_release_panic",
+            "u64x4_write_to_slice_unaligned", "u64x4_write_to_slice_unaligned_debug_panic",
+            "u64x4_write_to_slice_unaligned_release", "u64x4_write_to_slice_unaligned_release_panic",
+            "u64x4_extract", "u64x4_extract_panic", "u64x4_replace", "u64x4_replace_panic",
+            "u64x4_add_assign", "u64x4_bitxor_assign", "u64x4_add", "u64x4_bitxor", "u64x4_bitor",
+            "u64x4_bitand", "u64x4_rotate_words_right", "u64x4_rotate_words_right_debug_panic",
+            "u64x4_rotate_words_right_release", "u64x4_splat_rotate_right",
+            "u64x4_splat_rotate_right_debug_panic", "u64x4_splat_rotate_right_release", "u32x4x4_from",
+            "u32x4x4_splat", "u32x4x4_into_parts", "u32x4x4_clone", "u32x4x4_bitxor", "u32x4x4_bitor",
+            "u32x4x4_bitand", "u32x4x4_add", "u32x4x4_bitxor_assign", "u32x4x4_add_assign",
+            "u32x4x4_rotate_words_right", "u32x4x4_rotate_words_right_debug_panic",
+            "u32x4x4_rotate_words_right_release", "u32x4x4_splat_rotate_right",
+            "u32x4x4_splat_rotate_right_debug_panic", "u32x4x4_splat_rotate_right_release",
+        ],
+        gen=g("C19"),
+        cfgs_quick=["std-debug", "std-release"],
+        cfgs_thorough=["std-debug", "std-release"],
+    ),
 }
